@@ -9,7 +9,7 @@ ID="${1:?usage: run.sh <ID> quick|thorough}"; shift
 TIER="${1:-quick}"
 lc=$(echo "$ID" | tr 'A-Z' 'a-z')
 [ -d "checks/$lc" ] || { echo "no such check: $ID" >&2; exit 2; }
-B="$PWD/.build/$ID"; mkdir -p "$B"
+B="${VERIF_DIR:-$PWD}/.build/$ID"; mkdir -p "$B"   # runs redirected with VERIF_DIR (mutant / seed validation) build apart
 MODFLAG=()
 if [ -n "${VERIF_REPO:-}" ] && [ "${VERIF_REPO}" != "/repo" ]; then
   sed "s#=> /repo#=> ${VERIF_REPO}#" go.mod > "$B/go.alt.mod"; cp go.sum "$B/go.alt.sum"
